@@ -487,6 +487,30 @@ class _Unroll(ast.NodeTransformer):
         return n
 
 
+class _FoldJoined(ast.NodeTransformer):
+    """An f-string part that is a constant (`{'$'}` after constant propagation) is literal text."""
+
+    def visit_FormattedValue(self, n: ast.FormattedValue):
+        # a format spec stays a JoinedStr (that is what the grammar of the tree requires)
+        n.value = self.visit(n.value)
+        return n
+
+    def visit_JoinedStr(self, n: ast.JoinedStr):
+        self.generic_visit(n)
+        vals: List[ast.expr] = []
+        for v in n.values:
+            if isinstance(v, ast.FormattedValue) and v.conversion == -1 and v.format_spec is None and isinstance(v.value, ast.Constant) and isinstance(v.value.value, str):
+                v = ast.copy_location(ast.Constant(value=v.value.value), v)
+            if isinstance(v, ast.Constant) and vals and isinstance(vals[-1], ast.Constant):
+                vals[-1] = ast.copy_location(ast.Constant(value=str(vals[-1].value) + str(v.value)), vals[-1])
+            else:
+                vals.append(v)
+        if len(vals) == 1 and isinstance(vals[0], ast.Constant):
+            return ast.copy_location(ast.Constant(value=vals[0].value), n)
+        n.values = vals
+        return n
+
+
 class _Fold(ast.NodeTransformer):
     def visit_BinOp(self, n: ast.BinOp):
         self.generic_visit(n)
@@ -535,8 +559,94 @@ def _inline_list_temps(fn: ast.FunctionDef):
                 setattr(node, fld, do(seq))
 
 
+def _class_constants(t: ast.Module):
+    """`_NAME = "text"` in a class body, never re-bound: `self._NAME` / `cls._NAME` / `Class._NAME` read as the constant."""
+    classes = [c for c in t.body if isinstance(c, ast.ClassDef)]
+    body_names: Dict[str, int] = {}
+    for c in classes:
+        for st in c.body:
+            tg = st.targets[0] if isinstance(st, ast.Assign) and len(st.targets) == 1 else (st.target if isinstance(st, ast.AnnAssign) else None)
+            if isinstance(tg, ast.Name):
+                body_names[tg.id] = body_names.get(tg.id, 0) + 1
+    stored_attrs = {n.attr for n in ast.walk(t) if isinstance(n, ast.Attribute) and isinstance(n.ctx, (ast.Store, ast.Del))}
+    stored_attrs |= {a.args[1].value for a in ast.walk(t) if isinstance(a, ast.Call) and isinstance(a.func, ast.Name) and a.func.id == "setattr" and len(a.args) >= 2 and isinstance(a.args[1], ast.Constant)}
+    for c in classes:
+        consts: Dict[str, ast.Constant] = {}
+        for st in c.body:
+            tg = st.targets[0] if isinstance(st, ast.Assign) and len(st.targets) == 1 else (st.target if isinstance(st, ast.AnnAssign) else None)
+            val = getattr(st, "value", None)
+            if isinstance(tg, ast.Name) and isinstance(val, ast.Constant) and isinstance(val.value, (str, int, float)) and not isinstance(val.value, bool) and body_names.get(tg.id) == 1 and tg.id not in stored_attrs:
+                consts[tg.id] = val
+        if not consts:
+            continue
+
+        class _CC(ast.NodeTransformer):
+            def __init__(self, roots):
+                self.roots = roots
+
+            def visit_Attribute(self, n: ast.Attribute):
+                self.generic_visit(n)
+                if isinstance(n.ctx, ast.Load) and n.attr in consts and isinstance(n.value, ast.Name) and n.value.id in self.roots:
+                    return ast.copy_location(ast.Constant(value=consts[n.attr].value), n)
+                return n
+
+        for m in c.body:
+            if isinstance(m, ast.FunctionDef):
+                _CC({"self", "cls", c.name}).visit(m)
+        for other in t.body:
+            if other is not c:
+                _CC({c.name}).visit(other)
+
+
+def _expand_partials(t: ast.Module):
+    """`f = functools.partial(g, *a, **k)` bound once in a function: `f(x, **k2)` reads `g(*a, x, **k, **k2)`."""
+    for fn in [f for f in ast.walk(t) if isinstance(f, ast.FunctionDef)]:
+        stores: Dict[str, int] = {}
+        for n in ast.walk(fn):
+            if isinstance(n, ast.Name) and isinstance(n.ctx, ast.Store):
+                stores[n.id] = stores.get(n.id, 0) + 1
+        parts: Dict[str, ast.Call] = {}
+        for n in ast.walk(fn):
+            if isinstance(n, ast.Assign) and len(n.targets) == 1 and isinstance(n.targets[0], ast.Name) and stores.get(n.targets[0].id) == 1 and isinstance(n.value, ast.Call):
+                f_ = n.value.func
+                is_partial = (isinstance(f_, ast.Attribute) and f_.attr == "partial" and isinstance(f_.value, ast.Name) and f_.value.id == "functools") or (isinstance(f_, ast.Name) and f_.id == "partial")
+                if is_partial and n.value.args and not any(isinstance(a, ast.Starred) for a in n.value.args) and all(k.arg is not None for k in n.value.keywords):
+                    parts[n.targets[0].id] = n.value
+        if not parts:
+            continue
+
+        class _P(ast.NodeTransformer):
+            def visit_Call(self, c: ast.Call):
+                self.generic_visit(c)
+                if isinstance(c.func, ast.Name) and c.func.id in parts:
+                    p_ = parts[c.func.id]
+                    given = {k.arg for k in c.keywords}
+                    return ast.copy_location(
+                        ast.Call(func=copy.deepcopy(p_.args[0]), args=[copy.deepcopy(a) for a in p_.args[1:]] + c.args, keywords=[copy.deepcopy(k) for k in p_.keywords if k.arg not in given] + c.keywords),
+                        c,
+                    )
+                return c
+
+            def visit_Assign(self, a: ast.Assign):
+                if len(a.targets) == 1 and isinstance(a.targets[0], ast.Name) and a.targets[0].id in parts and a.value is parts[a.targets[0].id]:
+                    return None
+                return self.generic_visit(a)
+
+        # only when every use of the name is a call (not handed on as a value)
+        for nm in list(parts):
+            uses = [n for n in ast.walk(fn) if isinstance(n, ast.Name) and n.id == nm and isinstance(n.ctx, ast.Load)]
+            called = [c for c in ast.walk(fn) if isinstance(c, ast.Call) and isinstance(c.func, ast.Name) and c.func.id == nm]
+            if len(uses) != len(called):
+                parts.pop(nm)
+        if parts:
+            _P().visit(fn)
+            ast.fix_missing_locations(fn)
+
+
 def normalise_module(tree: ast.Module) -> ast.Module:
     t = copy.deepcopy(tree)
+    _class_constants(t)
+    _expand_partials(t)
     t = _Divmod().visit(t)
     t = _Unroll().visit(t)
     for f_ in [f for f in ast.walk(t) if isinstance(f, ast.FunctionDef)]:
@@ -583,7 +693,7 @@ def normalise_module(tree: ast.Module) -> ast.Module:
             changed = False
             # (a method that another class of the module also defines may be an overridable hook: dispatched, not inlined)
             priv = {m.name: m for m in cls.body if isinstance(m, ast.FunctionDef) and m.name.startswith("_") and not m.name.startswith("__") and defined[m.name] == 1}
-            if not priv:
+            if not priv and not helpers:
                 break
             for m in [x for x in cls.body if isinstance(x, ast.FunctionDef)]:
                 cand = {k: v for k, v in priv.items() if k != m.name}
@@ -704,5 +814,7 @@ def normalise_module(tree: ast.Module) -> ast.Module:
             fn.body = [x for x in (_Drop().visit(st) for st in fn.body) if x is not None]
             for _r in range(3):
                 fn.body = [_Subst(m_).visit(st) for st in fn.body]
+    ast.fix_missing_locations(t)
+    t = _FoldJoined().visit(t)
     ast.fix_missing_locations(t)
     return t
